@@ -430,6 +430,13 @@ def _check_async(case):
                             'disconnected-error-with-events-pending', '')
                 else:
                     raise Violation('receive-raised', repr(exc))
+        def update_final():
+            if h.eio.state != 'connected' and any(
+                    n == '_handle_reconnect' and tk.done()
+                    for n, tk in h.tasks) and not any(
+                    n == '_handle_reconnect' and not tk.done()
+                    for n, tk in h.tasks):
+                final[0] = True     # the reconnection effort gave up
         emits = []
         for group in case['groups']:
             spawned = []
@@ -486,12 +493,7 @@ def _check_async(case):
                     before = len(h.outbox)
                     emits.append((loop.spawn(sc.emit('x', 1)), before))
             loop.run_until_idle()
-            if h.eio.state != 'connected' and any(
-                    n == '_handle_reconnect' and tk.done()
-                    for n, tk in h.tasks) and not any(
-                    n == '_handle_reconnect' and not tk.done()
-                    for n, tk in h.tasks):
-                final[0] = True     # the reconnection effort gave up
+            update_final()
             harvest()
         if case['final'] and not final[0]:
             live = [tk for n, tk in h.tasks
@@ -507,7 +509,12 @@ def _check_async(case):
         # finite time-outs fire
         for _ in range(4):
             if pending and pending[0][1] is not None:
+                live = [tk for n, tk in h.tasks
+                        if n == '_handle_reconnect' and not tk.done()]
+                if live and h.plan[:1] == ['fail']:
+                    final[0] = True     # the pending attempt will fail
                 loop.advance()
+                update_final()
                 harvest()
         if pending:
             task, tout = pending[0]
